@@ -436,6 +436,37 @@ fn main() {
         t
     });
 
+    // S3d: quotients whose digits BEYOND the precision have a decision shape with a run of every length r:
+    // Q.4 9^r 5, Q.5 0^r 1 (terminating) and the same +- one unit of the numerator (non-terminating), all P digits
+    // of Q produced by the digit loop (quotient < 1), divisors carrying a common long odd factor:
+    // a = f*((2Q+1)*10^(r+1) -+ 1) + d,  b = f*2*10^(r+1)*10^(P+3)
+    let rmax: u64 = tier.pick(48, 130);
+    run.bound("S3d_run_lengths", format!("0..={}", rmax));
+    run.par("S3d decision shapes beyond the precision, every run length", (rmax + 1) as usize, |r| {
+        let mut t = Tally::default();
+        let n = pow10(r as u64 + 1);
+        let two64: BigInt = BigInt::one() << 64usize;
+        let factors: Vec<BigInt> = vec![BigInt::from(1), BigInt::from(3), pow10(19) + 7, &two64 + 1, big("1234567890123456789012345678901234567")];
+        let mut qs: Vec<BigInt> = vec![pow10(pl as u64 - 1), pow10(pl as u64) - 1, big(&filler_digits(run.seed(), pl as u64, pl as usize))];
+        qs.push(&qs[2] - 1);
+        for q in qs.iter() {
+            for f in factors.iter() {
+                for pm in [-1i64, 1] {
+                    for d in [0i64, 1, -1] {
+                        let inner: BigInt = (q * 2 + 1) * &n + pm;
+                        let a: BigInt = f * inner + d;
+                        let b: BigInt = f * 2 * &n * pow10(pl as u64 + 3);
+                        t.states += 1;
+                        t.nontrivial += 4;
+                        check_dec(&run, &Dec { n: a.clone(), s: 0 }, &Dec { n: b.clone(), s: 0 }, &forms, &mut t);
+                        check_dec(&run, &Dec { n: -a, s: 7 }, &Dec { n: b, s: -2 }, &forms, &mut t);
+                    }
+                }
+            }
+        }
+        t
+    });
+
     // S3b: remainders next to den/2 at the rounding position, with long numerator tails:
     // a = (q*den + r)*10^k + t,  r in {floor(den/2), floor(den/2)+1},  t around 10^k/2
     let mut s3b: Vec<(Dec, Dec)> = vec![];
